@@ -78,7 +78,8 @@ void crash_guard_install(void);             /* fatal signals inside a registered
 void crash_case(const char *prop, const char *kind, int n, const int *v, const uint8_t *buf, size_t m);
 void crash_case_done(void);
 uint8_t *guard_tail(int slot, size_t n);   /* n bytes ending at a PROT_NONE page (slots 0..7) */
-uint8_t *guard_head(int slot, size_t n);   /* n bytes starting right after a PROT_NONE page */
+uint8_t *guard_head(int slot, size_t n);
+void guard_readonly(int slot, int on);      /* read-only while a library call uses it as a pure input */   /* n bytes starting right after a PROT_NONE page */
 uint64_t verif_shadow_sig(const void *p, size_t n);   /* which bytes MemorySanitizer holds uninitialised (0 elsewhere) */
 void verif_unpoison(void *p, size_t n);   /* harness-side bookkeeping copies of painted memory (MSan builds) */
 /* order-independent digest of everything the library returned (outputs, schedules, return values) */
